@@ -324,6 +324,47 @@ func runC14(r *vk.Run) {
 		}
 	})
 
+	// queries whose acceptance is not the subject here (modifiers an implementation may accept or reject,
+	// constructs it may or may not support): whatever the verdict, and wherever in the build it falls, the
+	// readers opened before it are closed
+	either := []c14Shape{
+		{Name: "bool-on-arith-lit-left", Query: `1 + bool count_over_time({container=~"c.*"}[3s])`, Metric: true},
+		{Name: "bool-on-arith-lit-right", Query: `count_over_time({container=~"c.*"}[3s]) * bool 2`, Metric: true},
+		{Name: "bool-on-arith-vec", Query: `count_over_time({container="c0"}[3s]) - bool count_over_time({container="c1"}[3s])`, Metric: true},
+		{Name: "bool-on-arith-nested", Query: `sum(100 - bool count_over_time({container=~"c.*"}[3s]))`, Metric: true},
+		{Name: "bool-on-pow-lit-left", Query: `2 ^ bool count_over_time({container="c0"}[3s])`, Metric: true},
+		{Name: "bool-on-set", Query: `count_over_time({container="c0"}[3s]) and bool count_over_time({container="c1"}[3s])`, Metric: true},
+		{Name: "cmp-without-bool-lit-left", Query: `1 < count_over_time({container=~"c.*"}[3s])`, Metric: true},
+		{Name: "lit-op-lit-op-vec", Query: `1 + 2 * count_over_time({container="c0"}[3s])`, Metric: true},
+		{Name: "vec-op-lit-op-lit", Query: `count_over_time({container="c0"}[3s]) - 1 - 2`, Metric: true},
+		{Name: "quantile-out-of-range", Query: `quantile_over_time(1.5, {container=~"c.*"} | logfmt | unwrap v [3s]) by (container)`, Metric: true},
+		{Name: "topk-huge", Query: `topk(9223372036854775807, count_over_time({container=~"c.*"}[3s]))`, Metric: true},
+		{Name: "offset-beyond-data", Query: `count_over_time({container=~"c.*"}[3s] offset 100h) + count_over_time({container=~"c.*"}[3s])`, Metric: true},
+		{Name: "group-left", Query: `count_over_time({container="c0"}[3s]) / ignoring (container) group_left count_over_time({container="c1"}[3s])`, Metric: true},
+		{Name: "label-replace-left", Query: `label_replace(count_over_time({container="c1"}[3s]), "a", "$1", "b", "(.*)") + count_over_time({container="c0"}[3s])`, Metric: true},
+	}
+	r.Phase("either", r.N(3, 300), func(c *vk.Case) {
+		inv := c14Inventory(c.Rng, 2+c.Idx%2, 3)
+		for _, sh := range either {
+			fd := newFakeDocker(inv)
+			_, err := evalQuery(dockerQuerier(fd), sh.Query, sh.params())
+			c.Eval(1)
+			op, cl, _, proto := fd.Ledger()
+			if op != cl || len(proto) > 0 {
+				c.Fail("", fmt.Sprintf("%s (err=%v): %d readers opened, %d closed when Eval returned (protocol %v)", sh.Query, err, op, cl, proto), map[string]any{"inventory": inv, "shape": sh, "error": fmt.Sprint(err), "opened": op, "closed": cl})
+				continue
+			}
+			c.Count("either_verdict_runs", 1)
+			if err != nil {
+				c.Count("either_verdict_rejected", 1)
+			}
+			if op > 0 {
+				c.Nontrivial("either|" + sh.Name + fmt.Sprint(c.Idx))
+			}
+		}
+	})
+	r.Require("either_verdict_runs", 30)
+
 	// storage-level faults on the in-memory Querier
 	memShapes := []c14Shape{
 		{Name: "mem-log", Query: `{app="a"}`, Limit: -1},
